@@ -1,5 +1,61 @@
-From VF.C20 Require Import Model.
+(* C20 - property theorems only.  Each is closed by [exact] of a lemma of the
+   proof files and followed by Print Assumptions. *)
+From VF.C20 Require Import Model Spec Proofs Bridge.
+From VF.gen Require Import C20Locks.
 Local Open Scope N_scope.
-Example C20_nonvacuous_run : True.
-Proof. exact I. Qed.
-Print Assumptions C20_nonvacuous_run.
+
+(* for every configuration, every genesis and every sequence of critical
+   sections (any argument values, any scheduler choices [ord]) *)
+Theorem C20_views_partition :
+  forall (c : config) (genesis : block) (ops : list op), views_partition (run (new_pool c genesis) ops).
+Proof. exact partition_all_histories. Qed.
+Print Assumptions C20_views_partition.
+
+(* in particular no transaction is both pending and queued *)
+Theorem C20_never_pending_and_queued :
+  forall c genesis ops a t,
+    let p := run (new_pool c genesis) ops in
+    ~ (In t (held (pending p) a) /\ In t (held (queue p) a)).
+Proof. exact never_pending_and_queued. Qed.
+Print Assumptions C20_never_pending_and_queued.
+
+(* Clause 2 (pending lists are gap-free from the account nonce) does NOT hold
+   for the code as it is: listed finding pending-gap-after-partial-reinject
+   (fixes/C20_pending_gap_after_partial_reinject.md); witness [ex_ops] of Spec.v *)
+Theorem C20_pending_gapfree_refuted :
+  ~ (forall c genesis ops, pending_gapfree (run (new_pool c genesis) ops)).
+Proof. exact gapfree_refuted. Qed.
+Print Assumptions C20_pending_gapfree_refuted.
+
+(* Data-race clause (partial): on the method table regenerated from
+   core/tx_pool.go, every entry point of TxPool (exported method or goroutine
+   body) other than the listed latent one touches the shared fields only inside
+   a pool.mu critical section, i.e. every concurrent execution is an
+   interleaving of the critical sections that are the model's ops. *)
+Theorem C20_lock_discipline :
+  forall e, In e c20_methods -> is_entry e = true ->
+            needs_lock (List.length c20_methods) c20_methods e = false \/ In (e_name e) known_unlocked_entries.
+Proof. exact lock_discipline_forall. Qed.
+Print Assumptions C20_lock_discipline.
+
+(* the eviction branch of TxPool.loop still has the body the hook replicates *)
+Theorem C20_evict_branch_as_modelled : c20_evict_branch_as_modelled = true.
+Proof. exact evict_branch_as_modelled. Qed.
+Print Assumptions C20_evict_branch_as_modelled.
+
+(* ---- non-vacuity ------------------------------------------------------------ *)
+Example C20_nonvacuous_partition :
+  let p := run (new_pool (ex_cfg false) ex_genesis) ex_ops in
+  map t_id (all p) <> [] /\ map t_id (sort_nonce (held (pending p) 0)) = [0; 2; 3; 4] /\
+  map t_id (held (pending p) 1) = [5] /\ map t_id (held (queue p) 1) = [6] /\ panicked p = false.
+Proof. vm_compute. repeat split. discriminate. Qed.
+Print Assumptions C20_nonvacuous_partition.
+
+(* the same history on the repaired code: nonce 3 pending, 5,6,7 back in the
+   queue; the ghost flag tells the two apart *)
+Example C20_nonvacuous_repair :
+  let p := run (new_pool (ex_cfg true) ex_genesis) ex_ops in
+  map t_id (sort_nonce (held (pending p) 0)) = [0] /\ map t_id (sort_nonce (held (queue p) 0)) = [2; 3; 4] /\
+  gap_seen p = false /\ gap_seen (run (new_pool (ex_cfg false) ex_genesis) ex_ops) = true.
+Proof. vm_compute. repeat split. Qed.
+Print Assumptions C20_nonvacuous_repair.
